@@ -27,10 +27,13 @@
 #include "utap/statement.h"
 
 namespace UTAP {
-class FeatureChecker : public DocumentVisitor, public AbstractStatementVisitor
+class FeatureChecker : public DocumentVisitor, public ExpressionVisitor
 {
 private:
     SupportedMethods supported_methods{};
+
+protected:
+    void visitExpression(expression_t) override;
 
 public:
     explicit FeatureChecker(Document& document);
@@ -41,6 +44,7 @@ public:
     void visitGuard(expression_t& guard);
     void visitLocation(location_t& state) override;
     void visitVariable(variable_t&) override;
+    void visitFunction(function_t&) override;
     bool visitTemplateBefore(template_t&) override;
 
     void visitFrame(const frame_t& frame);
